@@ -24,7 +24,7 @@ def state_space_matrices(network: Network, c_values: dict[str, float] = {}, l_va
             if label in current_source_mapping_all.keys:
                 return current_source_mapping_all[label]
             return current_source_mapping_all.N + voltage_source_mapping_all[label]
-        Qi = source_incidence_matrix(network=network)
+        Qi = source_incidence_matrix(network=network, node_mapper=node_mapper, source_mapper=current_source_mapper)
         Q = np.zeros((voltage_source_mapping_all.N, voltage_source_mapping_all.N), dtype=int)
         for i in voltage_source_mapping_all.values:
             Q[i][i] = 1
@@ -40,7 +40,7 @@ def state_space_matrices(network: Network, c_values: dict[str, float] = {}, l_va
         ))
 
     Delta = element_incidence_matrix(c_values)
-    A_tilde = nodal_analysis_coefficient_matrix(network).real
+    A_tilde = nodal_analysis_coefficient_matrix(network, node_mapper=node_mapper, source_mapper=voltage_source_mapper).real
     QS, QL = source_and_inductance_incidence_matrix(l_values)
     DQ = np.hstack((Delta.T, QL))
     Lambda = value_matrix(c_values, l_values)
@@ -118,7 +118,7 @@ class NodalStateSpaceModel(sp.StateSpaceModel):
             return self.D[self.voltage_source_index_mapping[branch_id]+self.node_index_mapping.N][:]
         if branch_id in self.current_source_index_mapping:
             d_row = np.zeros(self.D.shape[1])
-            d_row[self.current_source_index_mapping[branch_id]] = 1
+            d_row[self.sources.index(branch_id)] = 1
             return d_row
         branch = self.network[branch_id]
         d_pos = self.d_row_for_potential(branch.node1)
